@@ -118,6 +118,8 @@ def gen_c03(seed, tier):
     if seed % 5 == 0:
         desc, rng = gen_history(seed, tier, n_ops=(2, 5), allow=("run", "update", "update", "delete", "fresh"),
                                 genkw=STRESS_GENKW)
+        if seed % 2:
+            desc, rng = gen_fanin_history(seed, rng)
         stress_stale_check(desc, rng)
         return desc
     desc, rng = gen_history(seed, tier)
@@ -134,6 +136,58 @@ def o_c03(rec, world, hist):
 # ---- C05 -------------------------------------------------------------------
 STRESS_GENKW = dict(p_src=0.5, p_stored=0.6, p_depsrc=0.05, p_fed=0.05, p_nested=0.1, p_lit=0.02,
                     durs=(0.0,), max_fan_in=3, n_min=3, n_max=8)
+
+
+def gen_fanin_history(seed, rng):
+    """The canonical shape for races inside the stale check: k registered inputs (sources or stored calls on sources)
+    examined concurrently, feeding - directly or through unstored intermediates - one or two stored fan-in nodes;
+    history: build everything, then touch some of the inputs, then the run under test."""
+    nodes, stores = [], {}
+
+    def store():
+        name = f"s{len(stores)}"
+        stores[name] = dict(flavour=rng.choice(["plain", "plain", "norm"]), cls=rng.choice(["A", "B"]))
+        return name
+
+    def call(args, stored=False, deps=()):
+        n = dict(id=len(nodes), kind="call", args=[["n", a] for a in args], kwargs=[], deps=sorted(deps), scope=[],
+                 dur=0.0, ret="val", fname=rng.choice(["f", "g", "h"]), depth=0)
+        if stored:
+            n["store"] = store()
+            n["add_depth"] = 0
+        nodes.append(n)
+        return n["id"]
+
+    k = rng.randrange(2, 5)
+    srcs = []
+    for _ in range(k):
+        nodes.append(dict(id=len(nodes), kind="src", store=store(), deps=[], scope=[], depth=0))
+        srcs.append(nodes[-1]["id"])
+    inputs = []
+    for s_ in srcs:
+        r = rng.random()
+        if r < 0.4:
+            inputs.append(s_)
+        elif r < 0.7:
+            inputs.append(call([s_]))                  # unstored intermediate: the time flows through it
+        else:
+            inputs.append(call([s_], stored=True))     # stored intermediate: its own time counts
+    mid = call(inputs, stored=True)
+    if rng.random() < 0.5:
+        plain = [rng.choice(inputs)] if rng.random() < 0.5 else []
+        call([mid] + rng.sample(inputs, rng.randrange(0, len(inputs))), stored=True, deps=plain)
+    world = dict(nodes=nodes, stores=stores, late_deps=[], output=rng.choice([None, ["n", mid], ["n", len(nodes) - 1]]))
+    cfg = dict(max_workers=rng.choice([2, 3]), scheduler=rng.choice([None, "default", "random"]), max_errors=0, retry=None,
+               stale_workers=rng.choice([2, 3, 4]), output=rng.random() < 0.5, use_fresh=True)
+    ops = [dict(op="run", cfg=dict(cfg))]
+    pure = [nodes[i]["store"] for i in srcs]
+    for name in rng.sample(pure, rng.randrange(1, len(pure))):     # at least one input stays older than the fan-in node
+        ops.append(dict(op="update", store=name))
+    if rng.random() < 0.2:
+        ops.append(dict(op="fresh"))
+    ops.append(dict(op="run", cfg=dict(cfg), final=True))
+    sc = worldgen.gen_sched(rng)
+    return dict(seed=seed, world=world, ops=ops, sched=sc, tick=rng.choice([1.0, 0.3, 0.001])), rng
 
 
 def stress_stale_check(desc, rng):
@@ -155,6 +209,8 @@ def gen_c05(seed, tier):
     if seed % 2 == 0:
         # several sources and stored fan-in nodes, source updates that make exactly one predecessor newer
         desc, rng = gen_history(seed, tier, n_ops=(2, 5), allow=("run", "update", "update", "delete"), genkw=STRESS_GENKW)
+        if seed % 5 < 2:
+            desc, rng = gen_fanin_history(seed, rng)
         stress_stale_check(desc, rng)
     else:
         desc, rng = gen_history(seed, tier)
@@ -177,6 +233,8 @@ def gen_c09(seed, tier):
         # check examines its inputs on different workers at the same moment
         desc, rng = gen_history(seed, tier, n_ops=(2, 5), allow=("run", "update", "update", "delete"),
                                 genkw=dict(STRESS_GENKW, p_norm=0.8))
+        if seed % 2:
+            desc, rng = gen_fanin_history(seed, rng)
         stress_stale_check(desc, rng)
         return desc
     desc, rng = gen_history(seed, tier, genkw=dict(p_norm=0.8, p_stored=0.5, p_dep=0.35, durs=(0.0, 0.0, 1.0, 3.0)),
